@@ -139,6 +139,7 @@ func OptPool() []*OptDecl {
 		{Names: []string{"i"}, Flag: true},
 		{Names: []string{"f", "force"}, Flag: true},
 		{Names: []string{"a-rather-long_option-name-with-2-digits-and_under_scores", "L"}},
+		{Names: []string{"m", "many", "M", "many-names", "mm"}, Flag: true},
 	}
 }
 
@@ -263,8 +264,10 @@ type sym struct {
 }
 
 // Vals are the values given to valued options; Poss the positional tokens
-var Vals = []string{"v1", "v2", "x", "7", "a=b", "v-1", "a b", "é", "=", "x--", "=x", "0", "true"}
-var Poss = []string{"p1", "p2", "q", "3", "-", "p1", "x=y", "é"}
+var Vals = []string{"v1", "v2", "x", "7", "a=b", "v-1", "a b", "é", "=", "x--", "=x", "0", "true", "+5", "50%", "a\tb", "日本語", "0x1F",
+	"a-value-that-is-longer-than-sixty-four-bytes-0123456789-0123456789-0123456789-0123456789"}
+var Poss = []string{"p1", "p2", "q", "3", "-", "p1", "x=y", "é", "+1", "%s", "tab\there", "語",
+	"a-positional-that-is-longer-than-sixty-four-bytes-0123456789-0123456789-0123456789-0123456789"}
 
 func derive(r *rand.Rand, p *Prog, n *Node, out *[]sym, budget *int, maxRep int) {
 	if *budget <= 0 {
